@@ -87,9 +87,9 @@ PROPS = {
                      "MantraDex.NonVacuity.w0_allInv", "MantraDex.NonVacuity.hist_effective", "MantraDex.NonVacuity.instance_custody",
                      "MantraDex.C01Exact.excess_tx_exact", "MantraDex.C01Exact.excess_history_exact",
                      "MantraDex.C01Exact.Cx.pmCollector_needed", "MantraDex.C01Exact.Cx.fmCollector_needed", "MantraDex.C01Exact.Cx.farmOwners_needed",
-                     "MantraDex.C01Exact.Cx.swapReceiver_needed", "MantraDex.C01Exact.Cx.routeReceiver_needed", "MantraDex.C01Exact.Cx.oddUnit_instance", "MantraDex.MonSound.monPmExcess_sound"],
+                     "MantraDex.C01Exact.Cx.swapReceiver_needed", "MantraDex.C01Exact.Cx.routeReceiver_needed", "MantraDex.C01Exact.Cx.oddUnit_instance", "MantraDex.MonSound.monPmExcess_sound", "MantraDex.MonSoundC.monPmCustody_sound", "MantraDex.MonSoundC.monPmCustody_locked_sound"],
         "extra_modules": ["MantraDex.Properties.C01Sys", "MantraDex.Properties.C02Sys", "MantraDex.Properties.C01All", "MantraDex.Properties.NonVacuity",
-                          "MantraDex.Properties.C01Exact", "MantraDex.Properties.MonSound"],
+                          "MantraDex.Properties.C01Exact", "MantraDex.Properties.MonSound", "MantraDex.Properties.MonSoundC"],
         "streams": {"pm_hist": (160, 4000), "faults": (45, 1500)},
         "what": "handler-level conservation law of the pool manager for every non-LP token: reserves' + outflow(messages) = reserves + inflow(funds) "
                 "for swap, routed swap (any length), withdraw, multi-asset deposit, pool creation (keeps nothing), config/ownership; the single-asset "
@@ -299,8 +299,8 @@ PROPS = {
         "module": "MantraDex.Properties.C04", "ns": "MantraDex.C04",
         "theorems": ["fee_is_floor_share", "fee_never_more", "computeFees_ok", "net_is_gross_minus_fees", "computeSwap_split",
                      "performSwap_ok", "swapHandler_messages", "routeHops_chain", "routeHops_fee_msgs",
-                     "MantraDex.C04Sys.swap_tx_effect", "MantraDex.C12Sys.route_tx_effect", "MantraDex.MonSoundB.monSwapReserves_sound", "MantraDex.MonSoundB.monSwapBank_sound"],
-        "extra_modules": ["MantraDex.Properties.C04Sys", "MantraDex.Properties.C12Sys", "MantraDex.Properties.MonSoundB"],
+                     "MantraDex.C04Sys.swap_tx_effect", "MantraDex.C12Sys.route_tx_effect", "MantraDex.MonSoundB.monSwapReserves_sound", "MantraDex.MonSoundB.monSwapBank_sound", "MantraDex.MonSoundC.monSwapFees_sound"],
+        "extra_modules": ["MantraDex.Properties.C04Sys", "MantraDex.Properties.C12Sys", "MantraDex.Properties.MonSoundB", "MantraDex.Properties.MonSoundC"],
         "streams": {"swapmath": (4000, 200000), "pm_hist": (120, 3000)},
         "what": "each fee = floor(gross*share) (never more); receiver gets gross minus all fees; perform_swap adds the offer in full and removes "
                 "exactly net+protocol+burn from the ask reserve, nothing else changes; a direct swap emits exactly [send net to receiver][burn]"
@@ -320,8 +320,8 @@ PROPS = {
                      "MantraDex.C06Sys.no_epoch_paid_twice_partial", "MantraDex.C06Sys.no_epoch_paid_twice_nonzero",
                      "MantraDex.C06Sys.no_epoch_paid_twice_default_until",
                      "MantraDex.C07Sys.claimed_eq_ledger", "MantraDex.C07Sys.claimed_le_emitted", "MantraDex.C07Sys.claim_never_exhausted",
-                     "MantraDex.C08Tx.claim_tx_effect", "MantraDex.NonVacuity.hist_effective_detail", "MantraDex.NonVacuity.instance_emission"],
-        "extra_modules": ["MantraDex.Properties.C07Split", "MantraDex.Properties.C06Sys", "MantraDex.Properties.C07Sys", "MantraDex.Properties.C08Tx", "MantraDex.Properties.NonVacuity"],
+                     "MantraDex.C08Tx.claim_tx_effect", "MantraDex.NonVacuity.hist_effective_detail", "MantraDex.NonVacuity.instance_emission", "MantraDex.MonSoundD.monClaim_sound_partial", "MantraDex.MonSoundD.claim_moves_claimed_by_spanReward", "MantraDex.MonSoundD.monClaim_sound_counterexample"],
+        "extra_modules": ["MantraDex.Properties.C07Split", "MantraDex.Properties.C06Sys", "MantraDex.Properties.C07Sys", "MantraDex.Properties.C08Tx", "MantraDex.Properties.NonVacuity", "MantraDex.Properties.MonSoundD"],
         "streams": {"fm_hist": (160, 4000)},
         "what": "END TO END OVER WHOLE HISTORIES (C06Sys): a ledger of every reward payment is derived from the history (the per-epoch terms of every ACCEPTED "
                 "top-level Claim; the coins a claim sends are exactly the sum of its entries, claim_pays_entries); in every history of account-signed transactions from a "
@@ -348,8 +348,8 @@ PROPS = {
                      "MantraDex.C06Sys.claim_pays_entries", "MantraDex.C06Sys.entry_shape",
                      "MantraDex.C07Sys.owed_frozen_partial", "MantraDex.C07Sys.claim_never_exhausted", "MantraDex.C07Sys.claimed_eq_ledger",
                      "MantraDex.C07Q.query_eq_claim_partial", "MantraDex.C07Q.query_nonempty_claim_pays_or_refuses_partial",
-                     "MantraDex.C07Q.query_eq_claim_counterexample"],
-        "extra_modules": ["MantraDex.Properties.C07Split", "MantraDex.Properties.C06Sys", "MantraDex.Properties.C07Sys", "MantraDex.Properties.C07Q"],
+                     "MantraDex.C07Q.query_eq_claim_counterexample", "MantraDex.MonSoundD.monClaim_sound_partial", "MantraDex.MonSoundD.monClaim_sound_of_invariants"],
+        "extra_modules": ["MantraDex.Properties.C07Split", "MantraDex.Properties.C06Sys", "MantraDex.Properties.C07Sys", "MantraDex.Properties.C07Q", "MantraDex.Properties.MonSoundD"],
         "streams": {"fm_hist": (160, 4000)},
         "also_tags": ["C06-overpaid"],   # C07 says "never more": the ledger monitor's over-payment tag decides C07 as well
         "what": "refinement core: the user scan and the total-weight scan of the compacted history compute the ledger's weight in effect (Spec.weightAt); "
@@ -374,8 +374,8 @@ PROPS = {
                      "MantraDex.C15Sys.positions_change_only_by_owner_tx_partial", "MantraDex.C15Sys.new_positions_belong_to_signer_partial",
                      "MantraDex.C08Tx.create_position_tx_effect", "MantraDex.C08Tx.expand_position_tx_effect",
                      "MantraDex.C08Tx.close_position_tx_effect_general", "MantraDex.C08Tx.close_position_tx_effect_partial",
-                     "MantraDex.PosTx.Cx.close_zero_counterexample"],
-        "extra_modules": ["MantraDex.Properties.C08Sys", "MantraDex.Properties.C15Sys", "MantraDex.Properties.C08Tx"],
+                     "MantraDex.PosTx.Cx.close_zero_counterexample", "MantraDex.MonSoundC.monWithdrawPosAccept_sound", "MantraDex.MonSoundC.monWithdrawPos_normal_sound"],
+        "extra_modules": ["MantraDex.Properties.C08Sys", "MantraDex.Properties.C15Sys", "MantraDex.Properties.C08Tx", "MantraDex.Properties.MonSoundC"],
         "streams": {"fm_hist": (160, 4000)},
         "what": "a non-emergency withdrawal is accepted only from the owner, for a closed position whose unlock instant (close time + unlocking "
                 "duration, boundary second included) is reached, pays exactly the recorded amount and deletes the position; an emergency request after "
@@ -470,8 +470,8 @@ PROPS = {
                      "MantraDex.C12Sys.swap_tx_within_slippage", "MantraDex.C12Sys.route_tx_min_receive", "MantraDex.C20Tx.swap_tx_belief_price",
                      "MantraDex.C13Tx.provide_tx_within_tolerance", "MantraDex.C13Tx.provide_tx_within_tolerance_locked",
                      "MantraDex.C13Tx.provide_tx_tolerance_monotone", "MantraDex.C13Tx.provide_tx_tolerance_monotone_any",
-                     "MantraDex.C13Tx.provide_tx_tolerance_above_one_refused_partial", "MantraDex.C13Tx.provide_tx_tolerance_above_one_unchanged"],
-        "extra_modules": ["MantraDex.Properties.C12Sys", "MantraDex.Properties.C20Tx", "MantraDex.Properties.C13Tx"],
+                     "MantraDex.C13Tx.provide_tx_tolerance_above_one_refused_partial", "MantraDex.C13Tx.provide_tx_tolerance_above_one_unchanged", "MantraDex.MonSoundC.monCpSlippage_sound"],
+        "extra_modules": ["MantraDex.Properties.C12Sys", "MantraDex.Properties.C20Tx", "MantraDex.Properties.C13Tx", "MantraDex.Properties.MonSoundC"],
         "streams": {"swapmath": (4000, 200000), "mintmath": (4000, 200000), "pm_hist": (120, 3000)},
         "what": "swap/route: accept iff slippage/(return+slippage) <= min(tolerance or 1%, 50%) (or, with a belief price, iff return >= expected or "
                 "short by <= tolerance); monotone in the tolerance; > 50% capped; routes deliver >= minimum_receive or fail; constant-product deposit: "
